@@ -222,8 +222,46 @@ func (w *World) Conc(conns []int, forced []int) (*sched, bool) {
 			w.kill(t.conn, t.err)
 		}
 	}
+	w.collect()
+	w.quiescent()
 	w.finishEvent("conc " + strings.Join(outs, ","))
 	return s, false
+}
+
+// quiescent prints, at the quiescent moment after a concurrent block, what C07 speaks about: for every live connection
+// the session its handler is in and whether that very session is what the registry resolves its id to, and for every
+// registered session its number of participants.  `Q members c:sid:found ... | sessions sid:count ...`
+func (w *World) quiescent() {
+	ids := append([]int(nil), w.order...)
+	sort.Ints(ids)
+	var ms, ss []string
+	for _, c := range ids {
+		cs := w.conns[c]
+		if cs == nil || (!cs.alive && !cs.ghost) {
+			continue
+		}
+		cur := cs.rh.VerifCurrentSession()
+		if cur == nil {
+			continue
+		}
+		gid := w.store.GlobalSessionID(cur.ID)
+		reg, ok := w.store.GetByGlobalID(gid)
+		found := 0
+		if ok && reg == cur {
+			found = 1
+		}
+		n, _ := w.canon.SidOf(gid)
+		ms = append(ms, fmt.Sprintf("%d:%d:%d", c, n, found))
+	}
+	gids := w.store.VerifSessionIDs()
+	sort.Strings(gids)
+	for _, g := range gids {
+		if sess, ok := w.store.GetByGlobalID(g); ok {
+			n, _ := w.canon.SidOf(g)
+			ss = append(ss, fmt.Sprintf("%d:%d", n, sess.ParticipantCount()))
+		}
+	}
+	w.emit("Q members %s | sessions %s", strings.Join(ms, " "), strings.Join(ss, " "))
 }
 
 // alternatives of a finished run: schedules that differ from it at one decision, within the preemption bound
@@ -305,7 +343,7 @@ func exploreConc(cfg Config, header string, prefix []string, conns []int, post [
 		// outcome identity: what everybody received and the registry, not the schedule itself
 		var sig []string
 		for _, l := range strings.Split(buf.String(), "\n") {
-			if strings.HasPrefix(l, "D ") || strings.HasPrefix(l, "S ") || strings.HasPrefix(l, "O ") {
+			if strings.HasPrefix(l, "D ") || strings.HasPrefix(l, "S ") || strings.HasPrefix(l, "O ") || strings.HasPrefix(l, "Q ") {
 				sig = append(sig, l)
 			}
 		}
